@@ -30,6 +30,8 @@ CONSTANTS
   PCfg,       \* sequence of port configs [p2p, mo, aml, keep]
               \*   aml : "any" or a set of acceptable clock identities
               \*   keep: announce interval of the port in BMCA steps (1 if all ports share one interval)
+  DevDup,     \* deviation of the code kept by a test of the repository: an Announce repeating the last stored
+              \*   sequenceId is stored again (FALSE: the intended design, distinct messages only)
   Fwd,        \* the host feeds ForwardTLV actions into the daemon's TlvForwarder
   EmptyOnBmca \* the host empties a master port's forwarder at every BMCA (ethernet port task of the daemon)
 
@@ -118,6 +120,7 @@ Register(f, own, cut, c, age) ==
   LET i == FmIdx(f, c.src) IN
   IF c.src[1] = own THEN f
   ELSE IF i # 0 /\ Len(f[i].msgs) > 0 /\ SeqDiff(c.seq, f[i].msgs[Len(f[i].msgs)].c.seq) >= 32767 THEN f
+  ELSE IF ~DevDup /\ age = 0 /\ i # 0 /\ Len(f[i].msgs) > 0 /\ SeqDiff(c.seq, f[i].msgs[Len(f[i].msgs)].c.seq) = 0 THEN f
   ELSE IF c.steps >= 255 THEN f
   ELSE IF i # 0 THEN
        LET l == Purge(f[i].msgs, cut)
@@ -206,14 +209,15 @@ HandleAnnounce(s, p, ev) ==
      ELSE Res3(Forward(Draw(f.s, p), p, queued), <<T("rcpt", "R")>> \o fw, f.clk, f.flt)
 
 \* ---------------------------------------------------------------- PtpInstance::bmca (ptp_instance.rs, port/bmca.rs, bmc/bmca.rs)
-RunBmca(s) ==
+RunBmca(s, ord) ==      \* ord: the order in which the host passes the ports (a permutation of Ports)
   LET tk == [p \in Ports |-> TakeBest(s.fml[p], p)]
       er == [p \in Ports |-> tk[p].er]
       \* Ebest: ports that are neither master-only nor faulty, slice order, last maximal wins
       RECURSIVE Glob(_)
-      Glob(p) == IF p > NP THEN <<>>
-                 ELSE IF ~IsNoneV(er[p]) /\ ~PCfg[p].mo /\ s.pst[p] # "F" THEN <<er[p]>> \o Glob(p + 1)
-                 ELSE Glob(p + 1)
+      Glob(i) == IF i > NP THEN <<>>
+                 ELSE LET p == ord[i] IN
+                      IF ~IsNoneV(er[p]) /\ ~PCfg[p].mo /\ s.pst[p] # "F" THEN <<er[p]>> \o Glob(i + 1)
+                      ELSE Glob(i + 1)
       gl == Glob(1)
       eb == IF gl = <<>> THEN NoneV ELSE Best(gl)
       d0 == D0(OwnAttr(s.q), Own)
@@ -221,10 +225,11 @@ RunBmca(s) ==
       dec == [p \in Ports |-> Decision(d0, s.q.class, dsOf(eb), dsOf(er[p]), er[p] = eb, s.pst[p] = "L")]
       \* port transitions in port order, accumulating clock / filter calls; returns [s, clk, flt, pend]
       RECURSIVE Apply(_, _)
-      Apply(acc, p) ==
-        IF p > NP THEN acc
+      Apply(acc, i) ==
+        IF i > NP THEN acc
         ELSE
-          LET st == acc.s
+          LET p == ord[i]
+              st == acc.s
               d == dec[p]
               cur == st.pst[p]
               \* set_recommended_port_state
@@ -257,9 +262,9 @@ RunBmca(s) ==
                       [] OTHER -> s1
               props == IF d = "S1" THEN << <<p, "props", er[p].c.tp>> >> ELSE <<>>
           IN Apply([s |-> s2, clk |-> acc.clk \o tr.f.clk \o props, flt |-> acc.flt \o tr.f.flt,
-                    pend |-> Append(acc.pend, tr.pend)], p + 1)
+                    pend |-> [acc.pend EXCEPT ![p] = tr.pend]], i + 1)
       s0 == [s EXCEPT !.fml = [p \in Ports |-> tk[p].f]]
-      ap == Apply([s |-> s0, clk |-> <<>>, flt |-> <<>>, pend |-> <<>>], 1)
+      ap == Apply([s |-> s0, clk |-> <<>>, flt |-> <<>>, pend |-> [p \in Ports |-> <<>>]], 1)
       \* step_announce_age
       s3 == [ap.s EXCEPT !.mpd = [p \in Ports |-> IF @[p] # -1 /\ @[p] + 1 < PCfg[p].keep THEN @[p] + 1 ELSE -1],
                          !.fml = [p \in Ports |-> StepAge(@[p], Cut(p))]]
@@ -464,7 +469,7 @@ Filtered(ev) == ("ver" \in DOMAIN ev /\ ev.ver # 2) \/ ("dom" \in DOMAIN ev /\ e
 OnEvent(ev) == IF "chan" \in DOMAIN ev THEN ev.chan = "e" ELSE ev.e \in {"sync", "dreq", "pdreq", "pdresp"}
 
 Step(s, ev) ==
-  CASE ev.e = "bmca" -> LET r == RunBmca(s) IN [s |-> r.s, pend |-> r.pend, clk |-> r.clk, flt |-> r.flt]
+  CASE ev.e = "bmca" -> LET r == RunBmca(s, Fld(ev, "ord", [p \in Ports |-> p])) IN [s |-> r.s, pend |-> r.pend, clk |-> r.clk, flt |-> r.flt]
     [] ev.e = "so" -> SetSlaveOnly(s, ev.v)
     [] ev.e = "q" -> SetQuality(s, ev.q)
     [] ev.e = "t" -> (CASE ev.k = "ann" -> AnnounceTimer(s, ev.p, TRUE)
